@@ -14,3 +14,14 @@ class CompilerError(Exception):
         return f'{self.filename}:{self.line}:{self.column}:{self.message}'
 
 
+
+class PrologSyntaxError(CompilerError):
+    '''Error thrown when the input is not a program in the supported Prolog syntax.'''
+
+    def __init__(self, filename, line, column, msg):
+        '''filename is the filename in which the error occured, line and column the
+        position in that file, and msg is the error message.'''
+        self.filename = filename
+        self.line = line
+        self.column = column
+        self.message = msg
